@@ -313,7 +313,7 @@ class Runner:
                 chk.corr_break(f"{cell}/tree", f"model says `{out[:80]}`, implementation returned {itree}; line `{line[:200]}`", payload)
                 continue
             mtree = collapse_mul(parts[1])
-            if isinstance(payload, dict) and payload.get("kind") in ("lun", "run", "one3", "bc", "one2"):
+            if isinstance(payload, dict) and (payload.get("bdiff") or payload.get("kind") in ("lun", "run", "one3", "bc", "one2")):
                 # broadcasting may wrap operands without `_expand_batch` in BatchRepeat: compare modulo opaque ids
                 mtree, itree = re.sub(r"Opaque\d+", "Opaque", mtree), re.sub(r"Opaque\d+", "Opaque", itree)
             if mtree != itree:
@@ -354,23 +354,40 @@ def size1_customs(rng, dtype, batch):
     g = C.ri(rng, (*batch, 2, 2), -2, 2, dtype)
     kp = lambda x, y: KroneckerProductLinearOperator(DenseLinearOperator(x.clone()), DenseLinearOperator(y.clone()))
     mk = [
-        ("Kronecker[1x1]", lambda: (kp(a, b), a * b), True),
-        ("KroneckerDiag[1x1]", lambda: (KroneckerProductDiagLinearOperator(DiagLinearOperator(a[..., 0].clone()), DiagLinearOperator(b[..., 0].clone())), a * b), True),
-        ("KroneckerTriangular[1x1]", lambda: (KroneckerProductTriangularLinearOperator(TriangularLinearOperator(a.clone()), TriangularLinearOperator(b.clone())), a * b), False),
-        ("KroneckerAddedDiag[diag,1x1]", lambda: (KroneckerProductAddedDiagLinearOperator(kp(a, b), DiagLinearOperator(e.clone())), a * b + e.unsqueeze(-1)), True),
-        ("KroneckerAddedDiag[const,1x1]", lambda: (KroneckerProductAddedDiagLinearOperator(kp(a, b), ConstantDiagLinearOperator(e.clone(), diag_shape=1)), a * b + e.unsqueeze(-1)), True),
-        ("SumKronecker[1x1]", lambda: (SumKroneckerLinearOperator(kp(a, b), kp(c, d)), a * b + c * d), True),
-        ("BlockDiag[1x1]", lambda: (BlockDiagLinearOperator(DenseLinearOperator(a.unsqueeze(-3).clone())), a), True),
-        ("BlockInterleaved[1x1]", lambda: (BlockInterleavedLinearOperator(DenseLinearOperator(a.unsqueeze(-3).clone())), a), True),
-        ("Matmul[1x1]", lambda: (MatmulLinearOperator(DenseLinearOperator(r1.clone()), DenseLinearOperator(r2.clone())), r1 @ r2), False),
-        ("Masked[1x1]", lambda: (MaskedLinearOperator(DenseLinearOperator(g.clone()), torch.tensor([False, True]), torch.tensor([True, False])),
+        ("Kronecker", lambda: (kp(a, b), a * b), True),
+        ("KroneckerDiag", lambda: (KroneckerProductDiagLinearOperator(DiagLinearOperator(a[..., 0].clone()), DiagLinearOperator(b[..., 0].clone())), a * b), True),
+        ("KroneckerTriangular", lambda: (KroneckerProductTriangularLinearOperator(TriangularLinearOperator(a.clone()), TriangularLinearOperator(b.clone())), a * b), False),
+        ("KroneckerAddedDiag[diag]", lambda: (KroneckerProductAddedDiagLinearOperator(kp(a, b), DiagLinearOperator(e.clone())), a * b + e.unsqueeze(-1)), True),
+        ("KroneckerAddedDiag[const]", lambda: (KroneckerProductAddedDiagLinearOperator(kp(a, b), ConstantDiagLinearOperator(e.clone(), diag_shape=1)), a * b + e.unsqueeze(-1)), True),
+        ("SumKronecker", lambda: (SumKroneckerLinearOperator(kp(a, b), kp(c, d)), a * b + c * d), True),
+        ("BlockDiag", lambda: (BlockDiagLinearOperator(DenseLinearOperator(a.unsqueeze(-3).clone())), a), True),
+        ("BlockInterleaved", lambda: (BlockInterleavedLinearOperator(DenseLinearOperator(a.unsqueeze(-3).clone())), a), True),
+        ("Matmul", lambda: (MatmulLinearOperator(DenseLinearOperator(r1.clone()), DenseLinearOperator(r2.clone())), r1 @ r2), False),
+        ("Masked", lambda: (MaskedLinearOperator(DenseLinearOperator(g.clone()), torch.tensor([False, True]), torch.tensor([True, False])),
                                  g[..., 1:2, 0:1]), False),
     ]
     return [CustomInst(nm, f, psd=psd) for nm, f, psd in mk]
 
 
+def _zero_root(it):
+    """A root-form instance whose root factor is exactly zero for some batch element (possible at n = 1): the operator is then
+    the zero matrix and root-based operations on it are outside the PSD grammar in a value-dependent way."""
+    if it.name not in ("Root", "LowRankRoot", "LowRankRootAddedDiag", "Mul"):
+        return False
+    op = it.build()
+    roots = []
+    for o in (op, getattr(op, "_linear_op", None), getattr(op, "left_linear_op", None), getattr(op, "right_linear_op", None)):
+        if o is not None and hasattr(o, "root"):
+            roots.append(o.root.to_dense())
+    return any(bool((r.abs().sum((-1, -2)) == 0).any()) for r in roots)
+
+
 def build_insts(rng, dtype, batch, n, thorough):
     its = C.instances(rng, dtype, batch, n, depth=2 if thorough else 1)
+    for _ in range(50):   # (only ever needed for n = 1) redraw until no root factor is identically zero: keeps cells seed-stable
+        if not any(_zero_root(it) for it in its):
+            break
+        its = C.instances(rng, dtype, batch, n, depth=2 if thorough else 1)
     its += C.instances(rng, dtype, batch, 2 * n, classes=SMALL6)
     try:   # upper-orientation Cholesky operator (opt-in entry of the catalogue; it is positive definite)
         ex = C.instances(rng, dtype, batch, n, classes=["Chol[upper]"], extra=True)
@@ -380,7 +397,8 @@ def build_insts(rng, dtype, batch, n, thorough):
     except TypeError:
         pass
     res = []
-    if n == 1:
+    if n == 1:   # the size-1 sweep: only instances with a dimension of size 1, plus true 1x1 instances of the other classes
+        its = [it for it in its if min(it.shape[-2:]) == 1 and max(it.shape[-2:]) <= 2]
         its += size1_customs(rng, dtype, batch)
     for it in its:
         if "f32only" in it.tags and dtype != torch.float32:
@@ -495,7 +513,8 @@ def run_pairs(R, chk, thorough):
 
                     def spec(a=a, b=b, op=op):
                         return PYOP[op](a.dense, b.dense)
-                    payload = {"part": "pair", "op": op, "a": a.name, "b": b.name, "na": a.shape[-1], "nb": b.shape[-1], "kind": kind}
+                    payload = {"part": "pair", "op": op, "a": a.name, "b": b.name, "na": a.shape[-1], "nb": b.shape[-1], "kind": kind,
+                               "bdiff": tuple(a.shape[:-2]) != tuple(b.shape[:-2])}
                     # model line needs the built operands: build once here for the encoding
                     line = None
                     try:
@@ -606,7 +625,7 @@ def unary_cases(it, batch, rng, dtype):
         cases.append((f"sumneg{dim}", lambda o, dim=dim: o.sum(dim - nb - 2), lambda d, dim=dim: d.sum(dim - nb - 2), None))
         if it.psd:
             cases.append((f"prod{dim}", lambda o, dim=dim: o.prod(dim), lambda d, dim=dim: d.prod(dim), None))
-        cases.append((f"squeeze-noop{dim}", lambda o, dim=dim: o.squeeze(dim), lambda d, dim=dim: d, None))
+        cases.append((f"squeeze-noop{dim}", lambda o, dim=dim: o.squeeze(dim), lambda d, dim=dim: d.squeeze(dim), None))
     if nb == 2:
         cases.append(("permute10", lambda o: o.permute(1, 0, 2, 3), lambda d: d.permute(1, 0, 2, 3), None))
         cases.append(("permute-neg", lambda o: o.permute(-3, -4, -2, -1), lambda d: d.permute(1, 0, 2, 3), None))
@@ -835,7 +854,7 @@ def run_size1(R, chk, thorough):
         return rec0(cell, desc, impl_fn, spec_fn, payload, **kw)
     try:
         chk.rng = random.Random(f"{PID}:size1:{chk.seed}")
-        SIZE.update(n=1, kinds=["none", "same1", "one2", "same2"], primary="same1", all=True, batches=((), (1,), (2,)))
+        SIZE.update(n=1, kinds=["none", "same1", "one2", "same2"], primary="same1", all=thorough, batches=((), (1,), (2,)))
         R.record = rec
         run_pairs(R, chk, thorough)
         run_scalars(R, chk, thorough)
